@@ -222,6 +222,43 @@ func c02Attrs(e *Env, viol func(kind, sig, what, chk string, rep any), mu *sync.
 			}
 		}
 	}
+	// --- MySQL integer types: every ordered pair of width x signedness ---
+	ints := []struct {
+		t        string
+		unsigned bool
+	}{{"int", false}, {"int", true}, {"bigint", false}, {"bigint", true}, {"smallint", false}, {"tinyint", true}}
+	for _, a := range ints {
+		for _, b := range ints {
+			mk := func(x struct {
+				t        string
+				unsigned bool
+			}) *schema.Schema {
+				s := schema.New("public").SetCharset("utf8mb4").SetCollation("utf8mb4_bin")
+				t := schema.NewTable("t").SetSchema(s).SetCharset("utf8mb4").SetCollation("utf8mb4_bin")
+				t.AddColumns(schema.NewIntColumn("id", "int"), schema.NewColumn("c").SetType(&schema.IntegerType{T: x.t, Unsigned: x.unsigned}))
+				s.AddTables(t)
+				return s
+			}
+			id := fmt.Sprintf("mysql integer type: %s unsigned=%v -> %s unsigned=%v", a.t, a.unsigned, b.t, b.unsigned)
+			want := a != b
+			count(id, want, "dialect:mysql")
+			rep := map[string]any{"dialect": "mysql", "case": id}
+			cs, err := mysql.DefaultDiff.SchemaDiff(mk(a), mk(b), schema.DiffNormalized())
+			if err != nil {
+				viol("failing-input", "diff-error", fmt.Sprintf("%s: SchemaDiff fails: %v", id, err), "Props.C02", rep)
+				continue
+			}
+			fl := flat(cs)
+			switch {
+			case !want && len(fl) > 0:
+				viol("failing-input", "spurious-change", fmt.Sprintf("%s: SchemaDiff reports %s", id, describeChanges(fl)), "Props.C02 exactness", rep)
+			case want:
+				if mc, ok := one[*schema.ModifyColumn](fl); !ok || mc.From.Name != "c" || mc.Change != schema.ChangeType {
+					viol("failing-input", "diff-not-exact", fmt.Sprintf("%s: the type of column c was edited, SchemaDiff reports %s", id, describeChanges(fl)), "Props.C02 exactness", rep)
+				}
+			}
+		}
+	}
 	// --- MySQL table engine ---
 	engines := []string{"", "InnoDB", "innodb", "MyISAM", "MEMORY"}
 	normE := func(s string) string {
